@@ -61,6 +61,11 @@ func (isn *InlineSchemaNamer) Name(key string, schema *spec.Schema, aschema *Ana
 		// NOTE: this is important if such referers use arbitrary JSON pointers.
 		an := New(isn.Spec)
 		for k, v := range an.references.allRefs {
+			if strings.HasPrefix(v.String(), key+"/") {
+				// points inside the rewritten schema: re-pointed below, once the schema is saved
+				continue
+			}
+
 			r, erd := replace.DeepestRef(isn.opts.Swagger(), isn.opts.ExpandOpts(false), v)
 			if erd != nil {
 				return ErrAtKey(k, erd)
@@ -90,6 +95,21 @@ func (isn *InlineSchemaNamer) Name(key string, schema *spec.Schema, aschema *Ana
 
 		// save cloned schema to definitions
 		schutils.Save(isn.Spec, newName, sch)
+
+		// rewrite any $ref pointing inside the moved schema: its target has moved along.
+		//
+		// NOTE: such anonymous JSON pointers may be introduced when name conflicts are resolved.
+		for k, v := range New(isn.Spec).references.allRefs {
+			if !strings.HasPrefix(v.String(), key+"/") {
+				continue
+			}
+
+			debugLog("found a $ref inside a rewritten schema: %s points to %s", k, v.String())
+			if err := replace.UpdateRef(isn.Spec, k,
+				spec.MustCreateRef(newPath+strings.TrimPrefix(v.String(), key))); err != nil {
+				return err
+			}
+		}
 
 		// keep track of created refs
 		if isn.flattenContext == nil {
